@@ -17,22 +17,27 @@ var (
 	lowSepGrps = []string{"g", "g.1", "g-x", "g1", "g h"}
 	badGrps    = []string{"", ".", "..", "g/x", "../id/a", "g/", "g/../h"}
 	patterns   = []string{"", "", "*", "a*", "?", "a?", "ab", "*b*", "a*c", "??", "b", "*.*", "zz*"}
-	limits     = []int{-1, -1, 0, 1, 2, 3, 100}
+	// patterns for pools with multi-segment ids: '*' and '?' never match a '/', a literal '/' does
+	slashPatterns = []string{"t/*", "*/*", "*/a", "t/?", "t/a*", "*/*/*", "u/*/w", "t*", "t?a", "*/", "tasks/*", "*", "?/?"}
+	limits        = []int{-1, -1, 0, 1, 2, 3, 100}
 )
 
 type caseGen struct {
-	r       *kit.Rand
-	ops     []string
-	ids     []string
-	grps    []string
-	idx     []idxSpec
-	tagOf   func(id string) string
-	faultPr int // chance (out of 12) that a mutation carries a fault
+	r         *kit.Rand
+	ops       []string
+	ids       []string
+	grps      []string
+	idx       []idxSpec
+	tagOf     func(id string) string
+	faultPr   int // chance (out of 12) that a mutation carries a fault
 	rebuildPr int // extra chance (out of 100) of a rebuild
-	n       int
+	n         int
+	slashIDs  bool // the pool has multi-segment ids: half of the pages use patterns with '/'
 }
 
-func (g *caseGen) add(format string, a ...interface{}) { g.ops = append(g.ops, fmt.Sprintf(format, a...)) }
+func (g *caseGen) add(format string, a ...interface{}) {
+	g.ops = append(g.ops, fmt.Sprintf(format, a...))
+}
 
 func (g *caseGen) cfgLine(prefix string) {
 	var sp []string
@@ -61,7 +66,9 @@ func (g *caseGen) observe(pages int) {
 	for i := 0; i < pages; i++ {
 		ix := kit.Pick(g.r, g.idx)
 		pat := kit.Pick(g.r, patterns)
-		if g.r.Chance(1, 4) {
+		if g.slashIDs && g.r.Chance(1, 2) {
+			pat = kit.Pick(g.r, slashPatterns)
+		} else if g.r.Chance(1, 4) {
 			pat = kit.Pick(g.r, g.ids) // an exact id as pattern (may contain glob meta characters only via "a*")
 			if strings.ContainsAny(pat, "[\\") {
 				pat = "*"
@@ -154,6 +161,7 @@ func genCase(r *kit.Rand, i int) []string {
 	}
 	if r.Chance(1, 3) {
 		g.ids = append(pickN(r, multiIDs, r.Range(2, 4)), "a")
+		g.slashIDs = true
 	}
 	g.grps = pickN(r, safeGrps, r.Range(2, 3))
 	g.tagOf = func(id string) string { return "T" + strings.ReplaceAll(id, "/", "_") }
@@ -173,8 +181,15 @@ func genCase(r *kit.Rand, i int) []string {
 	case 7:
 		g.ids = append(pickN(r, badIDs, r.Range(1, 3)), pickN(r, wfIDs, 2)...)
 	case 8:
+		// a unique SECONDARY index whose values collide: the store must reject the second holder (err:conflict)
 		g.idx = []idxSpec{{"id", true, "id"}, {"tag", true, "tag"}, {"grp", false, "grp"}}
-		tags := []string{"t1", "t2"}
+		if r.Chance(1, 3) {
+			g.idx = []idxSpec{{"tag", true, "tag"}, {"grp", false, "grp"}, {"id", true, "id"}, {"grpu", true, "grp"}}
+		}
+		tags := []string{"t1", "t2", "t3"}
+		if r.Chance(1, 2) {
+			tags = []string{"t", "t1", "t.1", "s"} // values that are prefixes of each other
+		}
 		g.tagOf = func(id string) string { return kit.Pick(r, tags) }
 	case 9:
 		g.grps = append(pickN(r, badGrps, r.Range(1, 2)), pickN(r, safeGrps, 1)...)
@@ -234,6 +249,51 @@ func exhaustive(out *kit.Out, e *env, length int, caseNo *int) {
 			ops = append(ops, fmt.Sprintf("list grp a* %d %d %d", code%2, 1+code%3, (code/2)%2))
 		}
 		emit(out, fmt.Sprintf("x%d", *caseNo), execCase(e, ops))
+		*caseNo++
+	}
+}
+
+// exhaustiveUnique: ALL histories of the given length over create/put/replace x {a, b} x tag {s, t} and delete x
+// {a, b} on a configuration with a unique index on the id and a unique index on the tag (a second holder of a tag
+// must be rejected with err:conflict and leave no trace), reopen and full observation after every operation; the
+// last operation of every 3rd history carries a fault (write 0..2 or commit).
+func exhaustiveUnique(out *kit.Out, e *env, length int, caseNo *int) {
+	ids := []string{"a", "b"}
+	tags := []string{"s", "t"}
+	var choices []string
+	for _, op := range []string{"create", "put", "replace"} {
+		for _, id := range ids {
+			for _, tg := range tags {
+				choices = append(choices, fmt.Sprintf("%s %s g %s D", op, id, tg))
+			}
+		}
+	}
+	for _, id := range ids {
+		choices = append(choices, fmt.Sprintf("delete %s", id))
+	}
+	total := 1
+	for i := 0; i < length; i++ {
+		total *= len(choices)
+	}
+	faults := []string{"w0", "w1", "w2", "c"}
+	for code := 0; code < total; code++ {
+		ops := []string{"cfg p id;u;id,tag;u;tag"}
+		if code%2 == 1 {
+			ops = []string{"cfg p tag;u;tag,grp;n;grp,id;u;id"}
+		}
+		c := code
+		for i := 0; i < length; i++ {
+			ch := c % len(choices)
+			c /= len(choices)
+			f := "-"
+			if i == length-1 && code%3 == 0 {
+				f = faults[(code/3)%len(faults)]
+			}
+			ops = append(ops, strings.Replace(choices[ch], " D", fmt.Sprintf(" d%d", i), 1)+" "+f)
+			ops = append(ops, "reopen", "dump", "get a", "get b", "list id % 0 1000 0", "list tag % 0 1000 0")
+			ops = append(ops, fmt.Sprintf("list tag %s %d %d %d", []string{"a", "*", "b"}[code%3], code%2, (code%3)-1, (code/2)%2))
+		}
+		emit(out, fmt.Sprintf("u%d", *caseNo), execCase(e, ops))
 		*caseNo++
 	}
 }
